@@ -13,6 +13,7 @@
 -/
 import BlocV.Proofs.Lemmas.OpsCases
 import BlocV.Proofs.Lemmas.BuiltinCases
+import BlocV.Proofs.Lemmas.Typing
 
 namespace BlocV.C02
 open BlocV Num
@@ -422,5 +423,162 @@ theorem builtin_type_sound_fails :
     (evalBuiltin (m := Res) (fun _ => []) "lsubstr" [.ok (.tab tabStrTy [] [.str [97]]), .ok (.null Ty.int)]
         = some (.ok (.tab tabStrTy [] [.str [97]])) ∧ builtinStaticTy "lsubstr" = some Ty.str) :=
   ⟨⟨rfl, by decide⟩, ⟨rfl, by decide⟩⟩
+
+
+/-! ## Program level (task C02FE)
+
+### The front end: the model runs the text the library runs
+
+`Elab.elabProgram` (Model/Elab.lean) translates the parser model's trees into interpreter programs; the driver command
+`src` runs a source text through Lex → Parse → Elab → Safety → `runProgram`, and the check compares that run with the
+library's run of the same bytes and with the model's run of the generator's S-expression (vlib/fe.py). The theorems below
+tie the two renderings inside Lean as far as Proofs/C12.lean goes: expressions of the operator core, assignments, DO
+statements, and whole programs made of those. As in C12 they speak about the TOKENS of the unparsed text (`toksExpr`,
+`toksProg`); that the bytes scan to those tokens is evaluated (example below, and `lex=1` of the C12 check). -/
+
+open BlocV.Parse BlocV.Unparse BlocV.Roundtrip BlocV.Elab BlocV.C02L BlocV.C12L in
+/-- The front end forgets parentheses: a tree and the tree read back from its text (`norm`) are the same interpreter
+expression — for ALL node kinds (calls, members, items included). -/
+theorem elab_forgets_parens (e : PExpr) : elabExpr (norm e) = elabExpr e := elab_norm e
+
+open BlocV.Parse BlocV.Unparse BlocV.Roundtrip BlocV.Elab BlocV.C02L BlocV.C12L in
+/-- **Expressions: text → parse → elab = elab.** For every well-formed tree in the parser's image (ALL node kinds since C12's
+`expr_roundtrip` dropped its `core` hypothesis), parsing
+the tokens of its unparsed text gives a tree with the same elaboration (hence the same value, output, errors and
+variables in every state, for every fuel: it IS the same `Expr`). -/
+theorem src_roundtrip_expr (e : PExpr) (hwf : wf e = true)
+    (t : Tok) (ts : List Tok) (hstop : Stops 9 t) (hvar : endsVar e = true → t.code ≠ cLP)
+    (f : Nat) (hf : 16 * esize e + 13 ≤ f) :
+    ∃ e', pExpr f (toksExpr e ++ t :: ts) = .ok (e', t :: ts) ∧ elabExpr e' = elabExpr e :=
+  ⟨norm e, C12.expr_roundtrip e hwf t ts hstop hvar f hf, elab_norm e⟩
+
+open BlocV.Parse BlocV.Unparse BlocV.Roundtrip BlocV.Elab BlocV.C02L BlocV.C12L in
+/-- **Programs: `elabProgram (parse (tokens (unparseProgram p)))` = `elabProgram p`** for every program `p` made of
+assignments `NAME = e;` and DO statements `do e;` whose expressions are in the domain of C12's round trip (`SStmt.ok`),
+of ANY length, for every sufficient parser fuel. -/
+theorem src_roundtrip_program_partial (ss : List SStmt) (hok : ∀ s ∈ ss, s.ok = true) (f : Nat) (hf : need ss ≤ f) :
+    ∃ p', pProgram f (toksProg ss) = .ok p' ∧ elabProgram p' = elabProgram (ss.map SStmt.toP) :=
+  ⟨_, pProgram_simple ss hok f hf, elabProgram_normS ss⟩
+/- Full statement (not proved): the same for every `p : List PStmt` the parser can build (IF / WHILE / FOR / FORALL /
+BEGIN / FUNCTION / RETURN / PRINT / RAISE, calls, members, items). Missing: statement-level round-trip lemmas for the block
+statements in Proofs/C12.lean (it has them for LET, chained LET and DO only) and `expr_roundtrip` beyond the operator core.
+It is FALSE on C12's recorded regions (wrapped integer literals, 17-digit decimals, fused print items); the
+correspondence covers the generator's whole language instead: model(text) = model(S-expression) on every program. -/
+
+open BlocV.Parse BlocV.Unparse BlocV.Roundtrip BlocV.Elab BlocV.C02L BlocV.C12L in
+/-- …so the program read back RUNS identically: same outcome, output and final variables, from every initial state. -/
+theorem src_roundtrip_runs (ss : List SStmt) (hok : ∀ s ∈ ss, s.ok = true) (f : Nat) (hf : need ss ≤ f)
+    (fuel : Nat) (init : St) :
+    ∃ p', pProgram f (toksProg ss) = .ok p' ∧
+      (elabProgram p').map (fun prog => (runProgram fuel prog init).outcome) =
+        (elabProgram (ss.map SStmt.toP)).map (fun prog => (runProgram fuel prog init).outcome) ∧
+      (elabProgram p').map (fun prog => (runProgram fuel prog init).st.output) =
+        (elabProgram (ss.map SStmt.toP)).map (fun prog => (runProgram fuel prog init).st.output) ∧
+      (elabProgram p').map (fun prog => (runProgram fuel prog init).st.vars) =
+        (elabProgram (ss.map SStmt.toP)).map (fun prog => (runProgram fuel prog init).st.vars) := by
+  obtain ⟨p', h1, h2⟩ := src_roundtrip_program_partial ss hok f hf
+  exact ⟨p', h1, by rw [h2], by rw [h2], by rw [h2]⟩
+
+/-- `A = 1 + B * 2; do -A power 2; B = (A < 3) and not true;` — in the domain, not a fixed point of `norm` -/
+def exProg : List C02L.SStmt :=
+  [.letS (Parse.bytesOf "A") (.bin .add false (.int 1) (.bin .mul false (.var (Parse.bytesOf "B")) (.int 2))),
+   .doS C12.exDoNeg,
+   .letS (Parse.bytesOf "B") (.bin .band false (.bin .lt true (.var (Parse.bytesOf "A")) (.int 3)) (.un .bnot false (.kw (Parse.bytesOf "true"))))]
+
+example : (∀ s ∈ exProg, s.ok = true) ∧ C02L.need exProg ≤ 200 := by decide +kernel
+/-- the BYTES `Executable::unparse` writes for it scan (lexer model) to the tokens the theorem speaks about -/
+example : Parse.tokensOf (Unparse.unparseProgram (exProg.map C02L.SStmt.toP)) = C02L.toksProg exProg := by decide +kernel
+example : (Elab.elabProgram (exProg.map C02L.SStmt.toP)).toOption.isSome = true := by decide +kernel
+
+/-! ### `$`-qualified variables and loop iterators keep their kind (Model/Safety.lean)
+
+`Safety.checkList` is the parser's walk over a statement list: every `registerSymbol` in text order under
+`Symbol::check_safety`, with the iterator of each FOR / FORALL protected while its body is compiled (`prot`). -/
+
+open BlocV.Safety BlocV.C02L in
+/-- **A protected symbol keeps its kind through everything the parser accepts.** For every statement list (any nesting of
+IF / WHILE / FOR / FORALL / BEGIN, any expressions, calls of any functions `funcs`), every symbol table `t`, every set
+`prot` of iterators protected from outside: if the walk accepts the list, then each symbol that is `$`-named or in `prot`
+and known before is still known after, and its type is of the same kind — at level 0 the SAME MAJOR; a table is still a
+table. `_partial`: the full statement (same major at every level) is false for tables, see `safety_table_major_fails`. -/
+theorem safety_preserves_major_partial (funcs : List Func) (fuel : Nat) (prot : List String) (t t' : SymTab) (ss : List Stmt)
+    (h : checkList funcs fuel prot t ss = .ok t') (m : String) (hs : isSafe prot m = true) (cur : Ty)
+    (hc : curOf t m = some cur) : ∃ cur', curOf t' m = some cur' ∧ sameKind cur cur' = true :=
+  foldE_keeps _ (fun a s b => checkStmt_keeps funcs fuel prot a b s) ss t t' h m hs cur hc
+
+open BlocV.Safety BlocV.C02L in
+/-- The reading of the property text: a `$` variable / iterator of a non-table type keeps exactly its major type (and
+stays a non-table) for as long as the constraint is active. -/
+theorem safety_preserves_major (funcs : List Func) (fuel : Nat) (prot : List String) (t t' : SymTab) (ss : List Stmt)
+    (h : checkList funcs fuel prot t ss = .ok t') (m : String) (hs : isSafe prot m = true) (cur : Ty)
+    (hc : curOf t m = some cur) (h0 : cur.level = 0) :
+    ∃ cur', curOf t' m = some cur' ∧ cur'.major = cur.major ∧ cur'.level = 0 := by
+  obtain ⟨cur', e, k⟩ := safety_preserves_major_partial funcs fuel prot t t' ss h m hs cur hc
+  refine ⟨cur', e, ?_⟩
+  unfold sameKind at k
+  simp only [Bool.or_eq_true, Bool.and_eq_true, beq_iff_eq, decide_eq_true_eq] at k
+  rcases k with ⟨⟨_, l2⟩, hm⟩ | ⟨l1, _⟩
+  · exact ⟨hm.symm, l2⟩
+  · omega
+
+open BlocV.Safety BlocV.C02L in
+/-- The iterator of a loop is protected inside the body whatever its name: a FOR statement is accepted only if its whole
+body keeps the iterator an integer (level 0, major integer). -/
+theorem for_iterator_keeps_integer (funcs : List Func) (fuel : Nat) (prot : List String) (t1 t' : SymTab)
+    (v : String) (body : List Stmt) (hv : curOf t1 v = some Ty.int)
+    (h : checkList funcs fuel (v :: prot) t1 body = .ok t') :
+    ∃ cur', curOf t' v = some cur' ∧ cur'.major = .int ∧ cur'.level = 0 := by
+  have hs : isSafe (v :: prot) v = true := by simp [isSafe]
+  exact safety_preserves_major funcs fuel (v :: prot) t1 t' body h v hs Ty.int hv rfl
+
+open BlocV.Safety BlocV.C02L in
+/-- Run time (`Context::storeVariable`): whatever is stored into a constrained symbol, the symbol's type afterwards is of the
+same kind as before — for ALL symbol types, stored values and new values. -/
+theorem store_preserves_major (sym cur new sym' : Ty) (h : storeCheck sym true cur new = .ok sym') :
+    sameKind sym sym' = true := by
+  unfold storeCheck at h
+  split at h
+  · cases h; exact sameKind_refl _
+  · split at h
+    · cases h
+    · rename_i hko
+      cases h
+      apply checkSafety_sameKind
+      intro hk
+      simp [hk] at hko
+
+open BlocV.Safety in
+example : storeCheck Ty.int true Ty.int Ty.str = .err Gen.EXC_RT_TYPE_MISMATCH_S ∧
+    storeCheck Ty.int true Ty.int (Ty.int) = .ok Ty.int ∧ storeCheck Ty.int false Ty.int Ty.str = .ok Ty.str := by decide
+
+open BlocV.Safety in
+/-- hypotheses satisfiable, non-trivially: `$Q = 1; for K in 1 to 2 loop $Q = 2; K = 3; end loop;` is accepted and `$Q`, `K` stay
+integers; `$Q = 1; $Q = "s";` and `for K in 1 to 2 loop K = 2.5; end loop;` are refused with TYPE_MISMATCH. -/
+example :
+    (checkList [] 10 [] [] [.letS "$Q" (.lit (.int 1)),
+        .forS "K" (.lit (.int 1)) (.lit (.int 2)) none .auto [.letS "$Q" (.lit (.int 2)), .letS "K" (.lit (.int 3))]]).toOption.map
+      (fun t => (curOf t "$Q", curOf t "K")) = some (some Ty.int, some Ty.int) ∧
+    checkProgram [.letS "$Q" (.lit (.int 1)), .letS "$Q" (.lit (.str [115]))] = some Gen.EXC_PARSE_TYPE_MISMATCH_S ∧
+    checkProgram [.forS "K" (.lit (.int 1)) (.lit (.int 2)) none .auto [.letS "K" (.lit (.num 0x4004000000000000))]]
+      = some Gen.EXC_PARSE_TYPE_MISMATCH_S ∧
+    checkProgram [.forS "K" (.lit (.int 1)) (.lit (.int 2)) none .auto [.nop], .letS "K" (.lit (.str [115]))] = none := by
+  decide +kernel
+
+open BlocV.Safety in
+/-- **The full statement — a constrained symbol keeps its MAJOR type — is false for tables** (model and C++ alike;
+finding C02.safety_table_major_changes, witness run on the pinned build): `Symbol::check_safety` lets a protected table
+become any other table, so `$T = tab(2, 1); $T = tab(1, "a");` is accepted and `$T` goes from a table of integers to a
+table of strings. -/
+theorem safety_table_major_fails :
+    checkSafety { major := .int, level := 1 } { major := .str, level := 1 } = .upg ∧
+    sameKind { major := .int, level := 1 } { major := .str, level := 1 } = true ∧
+    checkProgram [.letS "$T" (.call "tab" [.lit (.int 2), .lit (.int 1)]),
+                  .letS "$T" (.call "tab" [.lit (.int 1), .lit (.str [97])])] = none ∧
+    (checkList [] 10 [] [] [.letS "$T" (.call "tab" [.lit (.int 2), .lit (.int 1)])]).toOption.bind (curOf · "$T")
+      = some { major := .int, level := 1 } ∧
+    (checkList [] 10 [] [] [.letS "$T" (.call "tab" [.lit (.int 2), .lit (.int 1)]),
+                            .letS "$T" (.call "tab" [.lit (.int 1), .lit (.str [97])])]).toOption.bind (curOf · "$T")
+      = some { major := .str, level := 1 } := by
+  decide +kernel
 
 end BlocV.C02
